@@ -1066,9 +1066,20 @@ def _is_env_copy(v):
 def _res_events(f):
     """{resource: {'save': [(stmt, name)], 'restore': [(stmt, name)],
     'mutate': [stmt]}} from the statements of f"""
-    ev = {r: {'save': [], 'restore': [], 'mutate': []}
+    ev = {r: {'save': [], 'restore': [], 'mutate': [], 'update': [],
+              'clear': [], 'alias': []}
           for r in STDIO + (ENV,)}
     for s in walk(f.node):
+        if isinstance(s, ast.For) and isinstance(s.iter, ast.Call) and \
+                isinstance(s.iter.func, ast.Attribute) and \
+                s.iter.func.attr in ('items', 'keys') and \
+                isinstance(s.iter.func.value, ast.Name):
+            # for k, v in <saved>.items(): os.environ[k] = v
+            if any(isinstance(b, ast.Assign) and any(
+                    isinstance(t, ast.Subscript) and unparse(t.value) == ENV
+                    for t in b.targets) for b in s.body):
+                ev[ENV]['restore'].append((s, s.iter.func.value.id))
+                ev[ENV]['update'].append(s)
         if isinstance(s, ast.Assign):
             tg = [unparse(t) for t in s.targets]
             for r in STDIO + (ENV,):
@@ -1083,6 +1094,8 @@ def _res_events(f):
                     ev[r]['save'].append((s, names[0]))
             if _is_env_copy(s.value) and names:
                 ev[ENV]['save'].append((s, names[0]))
+            if unparse(s.value) == ENV and names:
+                ev[ENV]['alias'].append((s, names[0]))
             for t in s.targets:
                 if isinstance(t, ast.Subscript) and unparse(t.value) == ENV:
                     ev[ENV]['mutate'].append(s)
@@ -1099,7 +1112,10 @@ def _res_events(f):
                 if c.func.attr == 'update' and len(c.args) == 1 and \
                         isinstance(c.args[0], ast.Name):
                     ev[ENV]['restore'].append((s, c.args[0].id))
-                elif c.func.attr != 'clear':
+                    ev[ENV]['update'].append(s)
+                elif c.func.attr == 'clear':
+                    ev[ENV]['clear'].append(s)
+                else:
                     ev[ENV]['mutate'].append(s)
     return ev
 
@@ -1149,8 +1165,29 @@ def r20_6(prog, rep, rid='R20.6'):
                       'try: an exception in the handler (or a ' \
                       'BaseException) leaves it changed'
             elif wrong_src:
-                msg = 'is restored from `%s`, which is not a saved copy of ' \
-                      'it' % wrong_src[0][1]
+                alias = {n for _, n in e['alias']}
+                msg = 'is restored from `%s`, which is %s' % (
+                    wrong_src[0][1], 'an alias of os.environ itself, not a '
+                    'copy: everything the request changed is still there'
+                    if wrong_src[0][1] in alias else
+                    'not a saved copy of it')
+            elif r == ENV:
+                # the restore must re-establish the saved mapping exactly
+                for st, nm in good_restore:
+                    if not any(st is u for u in e['update']):
+                        continue                      # os.environ = saved
+                    clears = [n.id for c in e['clear'] if _in_final(T, c)
+                              for n in g.nodes_of(c)]
+                    unodes = g.nodes_of(st) if not isinstance(st, ast.For) \
+                        else [n for n in g.nodes if n.ast is st]
+                    if not unodes or not clears or not all(
+                            must_pass(g, g.entry.id, u.id, clears)
+                            for u in unodes):
+                        msg = 'is restored by writing the saved keys back ' \
+                              '(`%s`) without an os.environ.clear() before ' \
+                              'it on every path of the finally: keys ' \
+                              'added by the request are not removed' \
+                              % short(st, 40)
             rep.check(msg is None, rid, f, '%s is restored in the finally '
                       'from its own save' % what, construct='restore:%s' % r,
                       message='%s: %s %s' % (f.qual, what, msg),
@@ -1406,6 +1443,18 @@ MUTATIONS = [
     dict(name='R20.6 eval: environment copied after the task settings were applied', rules=('R20.6',), edits=[
         (_W, "        strout = None\n        strerr = None\n\n        old_env = os.environ.copy()\n\n        for k, v in task['description'].get('environment', {}).items():\n            os.environ[k] = str(v)\n\n        try:\n            # redirect stdio to capture them during execution\n            sys.stdout = strout = io.StringIO()\n            sys.stderr = strerr = io.StringIO()\n\n            self._log.debug('eval [%s] [%s]', code, task['uid'])",
              "        strout = None\n        strerr = None\n\n        for k, v in task['description'].get('environment', {}).items():\n            os.environ[k] = str(v)\n\n        old_env = os.environ.copy()\n\n        try:\n            # redirect stdio to capture them during execution\n            sys.stdout = strout = io.StringIO()\n            sys.stderr = strerr = io.StringIO()\n\n            self._log.debug('eval [%s] [%s]', code, task['uid'])")]),
+    dict(name='R20.6 seed C20-b: eval restores the environment with update() only', rules=('R20.6',), edits=[
+        (_W, "            err = strerr.getvalue() + ('\\neval failed: %s' % e)\n            exc = (repr(e), '\\n'.join(ru.get_exception_trace()))\n            ret = 1\n\n        finally:\n            # restore stdio\n            sys.stdout = bak_stdout\n            sys.stderr = bak_stderr\n\n            os.environ = old_env\n",
+             "            err = strerr.getvalue() + ('\\neval failed: %s' % e)\n            exc = (repr(e), '\\n'.join(ru.get_exception_trace()))\n            ret = 1\n\n        finally:\n            # restore stdio\n            sys.stdout = bak_stdout\n            sys.stderr = bak_stderr\n\n            os.environ.update(old_env)\n")]),
+    dict(name='R20.6 exec writes the saved keys back in a loop', rules=('R20.6',), edits=[
+        (_W, "            err = strerr.getvalue() + ('\\nexec failed: %s' % e)\n            exc = (repr(e), '\\n'.join(ru.get_exception_trace()))\n            ret = 1\n\n        finally:\n            # restore stdio\n            sys.stdout = bak_stdout\n            sys.stderr = bak_stderr\n\n            os.environ = old_env\n",
+             "            err = strerr.getvalue() + ('\\nexec failed: %s' % e)\n            exc = (repr(e), '\\n'.join(ru.get_exception_trace()))\n            ret = 1\n\n        finally:\n            # restore stdio\n            sys.stdout = bak_stdout\n            sys.stderr = bak_stderr\n\n            for k, v in old_env.items():\n                os.environ[k] = v\n")]),
+    dict(name='R20.6 exec clears the environment only when output was captured', rules=('R20.6',), edits=[
+        (_W, "            err = strerr.getvalue() + ('\\nexec failed: %s' % e)\n            exc = (repr(e), '\\n'.join(ru.get_exception_trace()))\n            ret = 1\n\n        finally:\n            # restore stdio\n            sys.stdout = bak_stdout\n            sys.stderr = bak_stderr\n\n            os.environ = old_env\n",
+             "            err = strerr.getvalue() + ('\\nexec failed: %s' % e)\n            exc = (repr(e), '\\n'.join(ru.get_exception_trace()))\n            ret = 1\n\n        finally:\n            # restore stdio\n            sys.stdout = bak_stdout\n            sys.stderr = bak_stderr\n\n            if strout:\n                os.environ.clear()\n            os.environ.update(old_env)\n")]),
+    dict(name='R20.6 eval saves an alias of os.environ, not a copy', rules=('R20.6',), edits=[
+        (_W, "        strout = None\n        strerr = None\n\n        old_env = os.environ.copy()\n\n        for k, v in task['description'].get('environment', {}).items():\n            os.environ[k] = str(v)\n\n        try:\n            # redirect stdio to capture them during execution\n            sys.stdout = strout = io.StringIO()\n            sys.stderr = strerr = io.StringIO()\n\n            self._log.debug('eval [%s] [%s]', code, task['uid'])",
+             "        strout = None\n        strerr = None\n\n        old_env = os.environ\n\n        for k, v in task['description'].get('environment', {}).items():\n            os.environ[k] = str(v)\n\n        try:\n            # redirect stdio to capture them during execution\n            sys.stdout = strout = io.StringIO()\n            sys.stderr = strerr = io.StringIO()\n\n            self._log.debug('eval [%s] [%s]', code, task['uid'])")]),
     dict(name='R20.6 func: failure reported with exit code 0', rules=('R20.6',), edits=[
         (_W, "            err = strerr.getvalue() + ('\\ncall failed: %s' % e)\n            exc = (repr(e), '\\n'.join(ru.get_exception_trace()))\n            ret = 1\n",
              "            err = strerr.getvalue() + ('\\ncall failed: %s' % e)\n            exc = (repr(e), '\\n'.join(ru.get_exception_trace()))\n            ret = 0\n")]),
@@ -1460,6 +1509,11 @@ SILENT = [
     dict(name='exec: environment restored in place', edits=[
         (_W, "            err = strerr.getvalue() + ('\\nexec failed: %s' % e)\n            exc = (repr(e), '\\n'.join(ru.get_exception_trace()))\n            ret = 1\n\n        finally:\n            # restore stdio\n            sys.stdout = bak_stdout\n            sys.stderr = bak_stderr\n\n            os.environ = old_env\n",
              "            err = strerr.getvalue() + ('\\nexec failed: %s' % e)\n            exc = (repr(e), '\\n'.join(ru.get_exception_trace()))\n            ret = 1\n\n        finally:\n            # restore stdio\n            sys.stderr = bak_stderr\n            sys.stdout = bak_stdout\n\n            os.environ.clear()\n            os.environ.update(old_env)\n")]),
+    dict(name='eval: environment saved with dict(os.environ), restored by clear + key loop', edits=[
+        (_W, "        strout = None\n        strerr = None\n\n        old_env = os.environ.copy()\n\n        for k, v in task['description'].get('environment', {}).items():\n            os.environ[k] = str(v)\n\n        try:\n            # redirect stdio to capture them during execution\n            sys.stdout = strout = io.StringIO()\n            sys.stderr = strerr = io.StringIO()\n\n            self._log.debug('eval [%s] [%s]', code, task['uid'])",
+             "        strout = None\n        strerr = None\n\n        old_env = dict(os.environ)\n\n        for k, v in task['description'].get('environment', {}).items():\n            os.environ[k] = str(v)\n\n        try:\n            # redirect stdio to capture them during execution\n            sys.stdout = strout = io.StringIO()\n            sys.stderr = strerr = io.StringIO()\n\n            self._log.debug('eval [%s] [%s]', code, task['uid'])"),
+        (_W, "            err = strerr.getvalue() + ('\\neval failed: %s' % e)\n            exc = (repr(e), '\\n'.join(ru.get_exception_trace()))\n            ret = 1\n\n        finally:\n            # restore stdio\n            sys.stdout = bak_stdout\n            sys.stderr = bak_stderr\n\n            os.environ = old_env\n",
+             "            err = strerr.getvalue() + ('\\neval failed: %s' % e)\n            exc = (repr(e), '\\n'.join(ru.get_exception_trace()))\n            ret = 1\n\n        finally:\n            # restore stdio\n            sys.stdout = bak_stdout\n            sys.stderr = bak_stderr\n\n            os.environ.clear()\n            for k, v in old_env.items():\n                os.environ[k] = v\n")]),
     dict(name='eval: success values assigned as one tuple', edits=[
         (_W, "            val = eval(code)\n            self._prof.prof('rank_stop', uid=uid)\n            out = strout.getvalue()\n            err = strerr.getvalue()\n            exc = (None, None)\n            ret = 0\n",
              "            val = eval(code)\n            self._prof.prof('rank_stop', uid=uid)\n            out = strout.getvalue()\n            err = strerr.getvalue()\n            ret, exc = 0, (None, None)\n")]),
